@@ -118,10 +118,10 @@ class DecFileParser:
                         # We need to strip the unicode byte ordering if present before checking for *
                         beg = line.lstrip("\ufeff").lstrip()
                         # Make sure one discards all lines "End"
-                        # in intermediate files, to avoid a parsing error
-                        if not (
-                            beg.startswith("End") and not beg.startswith("Enddecay")
-                        ):
+                        # in intermediate files, to avoid a parsing error.
+                        # Only the keyword itself (possibly followed by a comment) is such a line:
+                        # a wrapped list of model parameters may start a line with e.g. "EndPoint"
+                        if beg.split("#", 1)[0].strip() != "End":
                             stream.write(line)
                     stream.write("\n")
 
